@@ -72,6 +72,7 @@ type c13gen struct {
 	home    int    // 0 app, 1 lib
 	imports map[int]bool
 	usedPar bool
+	shadowU bool   // the injector's package redeclares the predeclared identifier int8
 	parName string // name of the injector parameter the expression mentions ("par", or "X": shadows the package-level X)
 	dot     bool   // the expression is written in the injector's package, which dot-imports the library
 }
@@ -115,9 +116,12 @@ func (g *c13gen) expr(ty string, depth int) string {
 		if leaf {
 			return g.pick([]string{"42", "X", "C", "V.A", "PV.A", "Arr[1]", "Sl[2]", `Mp["a"]`, "*PI", "Ts[1].A", "IV.(T).A", "conf.Port", "wconf.Port", "0x1F", "(*PV).A"}, "intleaf")
 		}
-		switch g.pick([]string{"leaf", "add", "mul", "neg", "conv", "paren", "index", "sel", "shift", "assertsel", "bitops", "litsel", "tsliceidx", "tmapidx", "cmplx", "optsel"}, "int") {
+		switch g.pick([]string{"leaf", "add", "mul", "neg", "conv", "paren", "index", "sel", "shift", "assertsel", "bitops", "litsel", "tsliceidx", "tmapidx", "cmplx", "optsel", "narrow"}, "int") {
 		case "optsel":
 			return g.expr("opt", depth+1) + ".X"
+		case "narrow":
+			// mentions the predeclared type int8 (which the injector's package may redeclare)
+			return "int(int8(X*40 + " + g.expr("int", depth+1) + "))"
 		case "bitops":
 			return "((" + g.expr("int", depth+1) + " &^ 1) | 2)"
 		case "litsel":
@@ -349,6 +353,11 @@ func genC13() *rapid.Generator[*Spec] {
 			)
 		}
 		s.PkgExtra[0], s.PkgExtra[1] = c13EnvApp, c13EnvLib
+		shadowU := !dot && rapid.IntRange(0, 99).Draw(t, "shadowuniverse") < 25
+		if shadowU {
+			// legal, if unwise: from here on int8 means something else in this package
+			s.PkgExtra[0] += "\ntype int8 = int16\n"
+		}
 		if dot {
 			delete(s.PkgExtra, 0)
 			s.DotImports = []int{1}
@@ -365,7 +374,7 @@ func genC13() *rapid.Generator[*Spec] {
 		var notes []string
 		excludedD20 := false
 		for k := 0; k < nExpr; k++ {
-			g := &c13gen{t: t, home: rapid.IntRange(0, 1).Draw(t, "home"), dot: dot}
+			g := &c13gen{t: t, home: rapid.IntRange(0, 1).Draw(t, "home"), dot: dot, shadowU: shadowU}
 			if dot {
 				g.home = 1
 			}
@@ -401,6 +410,9 @@ func genC13() *rapid.Generator[*Spec] {
 				if form == "ivalue" {
 					ty = "T"
 				}
+			}
+			if shadowU && g.home == 1 && cls == "" && strings.Contains(e, "int8(") {
+				cls = "inaccessible"
 			}
 			it := Item{Tok: k, Expr: e, ExprClass: cls}
 			if strings.Contains(strings.ReplaceAll(e, "wconf.", ""), "conf.") {
@@ -479,6 +491,9 @@ func genC13() *rapid.Generator[*Spec] {
 		}
 		if dot {
 			notes = append(notes, "dot-import")
+		}
+		if shadowU {
+			notes = append(notes, "redeclared-int8")
 		}
 		s.Note = "C13 " + strings.Join(notes, " ")
 		// plan: every injector twice
